@@ -11,8 +11,8 @@ Open Scope N_scope.
 (** Whatever the object held before (ANY state [old], also one left behind by a failed decode: no
     shape hypothesis), ReadTL1 into it behaves as the pure reader: same verdict (out of fuel / EOF / reject
     / ok), same unread rest, and the new object state represents exactly the decoded wire value. *)
-Theorem C09_reuse_simulates_pure_partial : forall fuel san s t bare ps old b,
-  match dinto fuel san s t bare ps old b, dec1 fuel san s t bare ps b with
+Theorem C09_reuse_simulates_pure_partial : forall fuel rfuel san s t bare ps old b,
+  match dinto fuel rfuel san s t bare ps old b, dec1 fuel san s t bare ps b with
   | None, None => True
   | Some Eof, Some Eof => True
   | Some Reject, Some Reject => True
@@ -32,10 +32,10 @@ Print Assumptions C09_writer_ignores_stale.
 (** Hence: decoding the same input into two objects with arbitrary histories (in particular [old2 := OFresh],
     a fresh object) gives the same verdict and rest, and on success both objects hold the same wire value and
     write the same bytes at every type position and under every nat environment where that value is writable. *)
-Theorem C09_reuse_equals_fresh_partial : forall fuel san s t bare ps old1 old2 b,
-  verdict_of (dinto fuel san s t bare ps old1 b) = verdict_of (dinto fuel san s t bare ps old2 b) /\
-  forall o1 o2 r1 r2, dinto fuel san s t bare ps old1 b = Some (Ok (o1, r1)) ->
-                      dinto fuel san s t bare ps old2 b = Some (Ok (o2, r2)) ->
+Theorem C09_reuse_equals_fresh_partial : forall fuel rfuel san s t bare ps old1 old2 b,
+  verdict_of (dinto fuel rfuel san s t bare ps old1 b) = verdict_of (dinto fuel rfuel san s t bare ps old2 b) /\
+  forall o1 o2 r1 r2, dinto fuel rfuel san s t bare ps old1 b = Some (Ok (o1, r1)) ->
+                      dinto fuel rfuel san s t bare ps old2 b = Some (Ok (o2, r2)) ->
     exists v, dec1 fuel san s t bare ps b = Some (Ok (v, r1)) /\ rep o1 v /\ rep o2 v /\
       forall t' bare' ps' w, enc1 false s t' bare' ps' v = Some w ->
         oenc s t' bare' ps' o1 = Some w /\ oenc s t' bare' ps' o2 = Some w.
@@ -68,15 +68,15 @@ Definition ex_old : ostate :=
 Definition ex_input : bytes := [1;0;0;0; 1;0;0;0; 42;0;0;0; 21;0;0;0; 6;0;0;0].
 
 Example ex_reused_keeps_stale_state :
-  dinto 5 true ex_schema 6 true [] ex_old ex_input =
+  dinto 5 3 true ex_schema 6 true [] ex_old ex_input =
   Some (Ok (OStruct [ONum 1; OArr [ONum 42] [ONum 8; ONum 9; ONum 10];
                      OUnion 0 [OStruct [ONum 6]; OStruct [OArr [ONum 1] []]]; ONum 0], [])).
 Proof. vm_compute. reflexivity. Qed.
-Example ex_fresh : dinto 5 true ex_schema 6 true [] OFresh ex_input =
+Example ex_fresh : dinto 5 3 true ex_schema 6 true [] OFresh ex_input =
   Some (Ok (OStruct [ONum 1; OArr [ONum 42] []; OUnion 0 [OStruct [ONum 6]]; ONum 0], [])).
 Proof. vm_compute. reflexivity. Qed.
 Example ex_same_bytes :
-  match dinto 5 true ex_schema 6 true [] ex_old ex_input, dinto 5 true ex_schema 6 true [] OFresh ex_input with
+  match dinto 5 3 true ex_schema 6 true [] ex_old ex_input, dinto 5 3 true ex_schema 6 true [] OFresh ex_input with
   | Some (Ok (o1, _)), Some (Ok (o2, _)) => oenc ex_schema 6 true [] o1 = Some ex_input /\ oenc ex_schema 6 true [] o2 = Some ex_input
   | _, _ => False
   end.
